@@ -28,7 +28,7 @@ func (c19) Cases(tier string) int {
 }
 
 func (c19) Rule() string {
-	return "0-4 recording response middlewares (each adds a key to the response; optionally one of them fails) interleaved at registration with 0-3 recording request middlewares, x fault patterns {none, a failing dependent call, a failing root call} x queries with joins (so that injected ids exist); services are wrapped in a queryer implementing QueryerWithMiddlewares that applies the middlewares it is handed to a request object before every call; checked: the response-middleware log is the registration-order prefix up to and including the first failing one, on success and on executor failure alike; every response middleware sees a response already free of injected ids (key sets equal the monolith's); the data returned carries every key the middlewares added; a middleware error is the returned error and no data is returned; every outbound call had every request middleware applied exactly once, in order; non-trivial = at least 1 response middleware and 2 service calls; distinct = distinct configuration"
+	return "0-4 recording response middlewares (each adds a key to the response; optionally one of them fails) interleaved at registration with 0-3 recording request middlewares, handed to gateway.New in one WithMiddlewares option or cut into two or three, x fault patterns {none, a failing dependent call, a failing root call} x queries with joins (so that injected ids exist); services are wrapped in a queryer implementing QueryerWithMiddlewares that applies the middlewares it is handed to a request object before every call; checked: the response-middleware log is the registration-order prefix up to and including the first failing one, on success and on executor failure alike; every response middleware sees a response already free of injected ids (key sets equal the monolith's); the data returned carries every key the middlewares added; a middleware error is the returned error and no data is returned; every outbound call had every request middleware applied exactly once, in order; non-trivial = at least 1 response middleware and 2 service calls; distinct = distinct configuration"
 }
 
 // mwQueryer wraps a Service and implements graphql.QueryerWithMiddlewares.
@@ -127,7 +127,23 @@ func (c19) Run(c *Ctx, i int) CaseResult {
 		return nil
 	})
 	var err error
-	fed, err = NewFed(spec, store, gateway.WithMiddlewares(mws...), gateway.WithQueryerFactory(&factory))
+	// the list is handed over in one WithMiddlewares option or cut into several (the option adds)
+	mwOpts := []gateway.Option{}
+	if cuts := r.Intn(3); cuts == 0 || len(mws) < 2 {
+		mwOpts = append(mwOpts, gateway.WithMiddlewares(mws...))
+	} else {
+		at := 1 + r.Intn(len(mws)-1)
+		mwOpts = append(mwOpts, gateway.WithMiddlewares(mws[:at]...))
+		rest := mws[at:]
+		if cuts == 2 && len(rest) >= 2 {
+			at2 := 1 + r.Intn(len(rest)-1)
+			mwOpts = append(mwOpts, gateway.WithMiddlewares(rest[:at2]...), gateway.WithMiddlewares(rest[at2:]...))
+		} else {
+			mwOpts = append(mwOpts, gateway.WithMiddlewares(rest...))
+		}
+	}
+	res.Features = append(res.Features, fmt.Sprintf("middleware-options-%d", len(mwOpts)))
+	fed, err = NewFed(spec, store, append(mwOpts, gateway.WithQueryerFactory(&factory))...)
 	if err != nil {
 		res.Fails = append(res.Fails, Failure{Channel: "harness", Classifier: "harness-error", What: err.Error()})
 		return res
@@ -207,7 +223,7 @@ func (c19) Run(c *Ctx, i int) CaseResult {
 	}
 	res.Nontrivial = nResp > 0 && calls >= 2
 	res.Counters = map[string]int{"outbound_calls": calls, "response_middlewares": nResp, "request_middlewares": nReq}
-	res.Features = []string{"fault:" + fault, fmt.Sprintf("failing:%v", failAt >= 0)}
+	res.Features = append(res.Features, "fault:"+fault, fmt.Sprintf("failing:%v", failAt >= 0))
 	if i%37 == 0 {
 		res.Sample = map[string]interface{}{"config": cfg, "log": log.Resp, "per_call": log.PerCall, "error": ErrString(out.Err)}
 	}
